@@ -242,7 +242,11 @@ func runC17(t *rapid.T) {
 	n := rapid.IntRange(1, 30).Draw(t, "nops")
 	var ops []lop
 	for i := 0; i < n; i++ {
-		switch rapid.IntRange(0, 9).Draw(t, "lop") {
+		switch rapid.IntRange(0, 10).Draw(t, "lop") {
+		case 10:
+			// the terminal is lent to another program, which leaves the
+			// character-set designations at their defaults
+			ops = append(ops, lop{Kind: "suspend-resume"})
 		case 0, 1, 2, 3, 4:
 			o := lop{Kind: "set", X: rapid.IntRange(0, cfg.W-1).Draw(t, "x"), Y: rapid.IntRange(0, cfg.H-1).Draw(t, "y"), R: drawLegacyRune(t, members)}
 			if rapid.IntRange(0, 6).Draw(t, "comb") == 0 {
@@ -254,6 +258,12 @@ func runC17(t *rapid.T) {
 			w.S.Note(hx.Fingerprint(cfg, ops))
 		case 7:
 			o := lop{Kind: "register", R: drawLegacyRune(t, members), FB: rapid.SampledFrom([]string{"x", "#", "=", "%"}).Draw(t, "fb")}
+			if rapid.IntRange(0, 3).Draw(t, "fbcomb") == 0 {
+				// a substitute registered for a combining mark: marks the
+				// charset cannot carry are dropped, never spelled out next to
+				// the base character (the cell keeps its width)
+				o.R = rapid.SampledFrom(combMarks).Draw(t, "fbmark")
+			}
 			if lm.Width(o.R) == 2 && rapid.Bool().Draw(t, "fbwide") {
 				o.FB += "~" // "the display string should be the same width as the original rune"
 			}
@@ -315,6 +325,21 @@ func runC17(t *rapid.T) {
 				w.block++
 				w.Scr.Show()
 				w.afterShowLegacy()
+			case "suspend-resume":
+				_ = w.Scr.Suspend()
+				// what the other program left behind: ASCII in G0 and G1, G0 shifted in
+				w.T.G = [2]byte{'B', 'B'}
+				w.T.Shift = 0
+				w.T.PCFont = false
+				if err := w.Scr.Resume(); err != nil {
+					w.fail("C17/stall", "Resume failed: %v", err)
+					return
+				}
+				w.Tty.Faults.Inc("suspend_resume")
+				// applications redraw after taking the terminal back
+				w.Scr.Clear()
+				w.M.Fill(' ', lm.Style{})
+				w.M.ResetPaint()
 			}
 		}
 	})
